@@ -533,6 +533,48 @@ class BuildersProp(core.Prop):
                     report.runtime_failure("the %s builder turned the factory's KeyError into %s"
                                            % (what, type(ex).__name__), d)
         report.notes["factory_fault_builds"] = done
+        # (seeded change C18-r3m1; runtime only: the model's registry keys are single characters) more than nine kinds
+        # of object keyed by their NUMBER, or by a two-letter name: a cell token of the file is what stands between two
+        # spaces, a cell of the array is a string - both builders look the whole token up in the registry
+        from abmarl.sim.gridworld.agent import GridWorldAgent
+        toks_pool = ["10", "11", "12", "1", "2", "W2", "AB", "A", "B7"]
+        multi = 0
+        for _ in range(30 if tier == "quick" else 300):
+            rows, cols = rng.randint(1, 4), rng.randint(1, 5)
+            keys = rng.sample(toks_pool, rng.randint(2, 5))
+            if not any(len(k) > 1 for k in keys):
+                continue
+            cells = [rng.choice(keys + [".", "_", "0", "X", "XY"]) for _ in range(rows * cols)]
+            encs = {k: i + 1 for i, k in enumerate(keys)}
+
+            def registry():
+                return {k: (lambda n, k=k: GridWorldAgent(id="t%s_%d" % (k, n), encoding=encs[k])) for k in keys}
+            cnt, expected = {}, []
+            for i, tok in enumerate(cells):
+                if tok in encs:
+                    n = cnt.get(tok, 0)
+                    cnt[tok] = n + 1
+                    expected.append(("t%s_%d" % (tok, n), encs[tok], (i // cols, i % cols)))
+            expected.sort()
+            d = {"multi_character_tokens": True, "rows": rows, "cols": cols, "cells": cells, "keys": keys}
+            arr = np.array(cells, dtype=object).reshape(rows, cols)
+            path = _layout_path()
+            with open(path, "w", newline="") as f:
+                f.write("\n".join(" ".join(cells[r * cols:(r + 1) * cols]) for r in range(rows)))
+            multi += 1
+            for what, build in (("array", lambda: Sim.build_sim_from_array(arr, registry())),
+                                ("file", lambda: Sim.build_sim_from_file(path, registry()))):
+                try:
+                    sim = build()
+                    got = sorted((a.id, int(a.encoding), tuple(int(x) for x in a.initial_position))
+                                 for a in sim.agents.values())
+                except Exception as ex:  # noqa: BLE001
+                    got = "raised %s" % type(ex).__name__
+                if got != expected:
+                    report.runtime_failure("the %s builder does not build one agent per registered token of a layout with "
+                                           "tokens of several characters: %r instead of %r" % (what, got, expected), d)
+                    break
+        report.notes["multi_character_token_layouts"] = multi
 
     def finding_matchers(self):
         return {}
